@@ -7,6 +7,7 @@ CONSTANTS
   Bodies = {1, 2}
   Protos = {"ok"}
   RoleCfgs <- GenRelayRoleCfgs
+  AllowCfgs <- RelayAllowCfgs
   TypeCfgs <- GenRelayTypeCfgs
   NB = 2
   LB = 2
